@@ -407,5 +407,55 @@ func TestC15Concurrent(t *testing.T) {
 		if got := mgr.Endpoints(); !reflect.DeepEqual(got, want) {
 			c.Fatalf("C15: after concurrent run registry %v, model %v", got, want)
 		}
+		// hammer: with the set now stable, concurrent selections must neither crash
+		// nor be unfair: T selections over n upstreams return each floor(T/n) or ceil(T/n) times
+		for ep, n := range want {
+			if n < 2 {
+				continue
+			}
+			H, per := c.Int("hammerGoroutines", 2, 6), c.Int("hammerSelects", 50, 600)
+			counts := make([]map[*fakeUp]int, H)
+			var hw sync.WaitGroup
+			for h := 0; h < H; h++ {
+				counts[h] = map[*fakeUp]int{}
+				hw.Add(1)
+				go func(h int) {
+					defer hw.Done()
+					defer func() {
+						if r := recover(); r != nil {
+							panics.Store(fmt.Sprintf("hammer goroutine %d: %v", h, r))
+						}
+					}()
+					for i := 0; i < per; i++ {
+						if u, ok := mgr.Select(ep, false); ok {
+							if fu, isFake := u.(*fakeUp); isFake && fu != nil {
+								counts[h][fu]++
+							}
+						}
+					}
+				}(h)
+			}
+			hw.Wait()
+			if p := panics.Load(); p != nil {
+				c.Fatalf("C15: panic under concurrent selection: %v", p)
+			}
+			total := map[*fakeUp]int{}
+			sum := 0
+			for _, m := range counts {
+				for u, k := range m {
+					total[u] += k
+					sum += k
+				}
+			}
+			if sum != H*per || len(total) != n {
+				c.Fatalf("C15: %d concurrent selections of %s over %d stable upstreams returned %d results over %d upstreams", H*per, ep, n, sum, len(total))
+			}
+			for u, k := range total {
+				if k < sum/n || k > (sum+n-1)/n {
+					c.Fatalf("C15 fairness: %d concurrent selections over %d stable upstreams of %s returned %v %d times (each must get %d or %d)", sum, n, ep, u, k, sum/n, (sum+n-1)/n)
+				}
+			}
+			c.Class("concurrent-hammer")
+		}
 	})
 }
